@@ -145,6 +145,9 @@ def chains(run):
 
 
 def build(run):
+    from props import conformance
+
+    conformance.run_conformance(run, ['symmetric', 'affine'])
     run.assume("A-ENGINE qvc VC generator + z3/cvc5", "A-PY", "A-TORCH-EW bit-precise IEEE semantics of / * round clamp and casts (RNE; float->int RTZ)",
                "A-NANCAST NaN -> int8/uint8 cast yields 0 on this CPU (used for all-zero rows of integer qtypes)",
                "A-TORCH-RED amax/amin: bound + attained (NaN-free inputs)", "PackedTensor / group contracts (C04 / C02)")
